@@ -332,6 +332,10 @@ def check(cx):
                             k = op_const(rv["o"][i])
                             incl.add(k.get("v") if k else "non-constant")
                 wv, wi = WANT[side][var]
+                if "non-constant" in incl and vecs == wv:
+                    # inclusiveness computed at run time (e.g. arms merged with `inclusive: op == Ge`): not a table entry
+                    cx.advisory(r6, key, f.where(), "the `%s` arm computes `inclusive` at run time: side checked (%s), inclusiveness not decided" % (var, sorted(vecs)))
+                    continue
                 cx.verdict(vecs == wv and incl == wi, r6, key, f.where(), "pushes %s, inclusive=%s" % (sorted(vecs), sorted(incl)),
                            "the `%s` arm for %s pushes onto %s with inclusive=%s, the operator means %s with inclusive=%s: the "
                            "index scan returns a different row set than the filter it replaces (boundary row lost or added)" % (
